@@ -13,6 +13,8 @@ import io
 import os as _os
 import types
 
+from engine.harness_api import ns
+
 
 class Crash(BaseException):
     pass
@@ -119,9 +121,9 @@ def install(mod, fs):
     """swap os / tempfile / open in module `mod` (gunicorn.pidfile); returns undo()"""
     saved = (mod.os, mod.tempfile, getattr(mod, "open", None))
     path_ns = types.SimpleNamespace(dirname=_os.path.dirname, isdir=lambda d: True)
-    mod.os = types.SimpleNamespace(getpid=fs.getpid, kill=fs.kill, write=fs.write, rename=fs.rename, close=fs.close, fdopen=fs.fdopen,
+    mod.os = ns("mod.os", getpid=fs.getpid, kill=fs.kill, write=fs.write, rename=fs.rename, close=fs.close, fdopen=fs.fdopen,
                                    chmod=fs.chmod, unlink=fs.unlink, path=path_ns)
-    mod.tempfile = types.SimpleNamespace(mkstemp=fs.mkstemp)
+    mod.tempfile = ns("mod.tempfile", mkstemp=fs.mkstemp)
     mod.open = fs.open
 
     def undo():
